@@ -50,5 +50,23 @@ CHECKS["C16"] = _c16
 CHECKS["C19"] = _c16     # same two legs: API histories + recovered crash images, judged for accounting
 for _p in ("C03", "C04", "C14", "C17"):
     CHECKS[_p] = sync.run_plan
+
+
+def _with_seglog(main):
+    """C03 / C09 / C17: the Seglog leg (design level + SeglogTrace on recorded rollback-log operations) runs first;
+    its coverage is merged into the evidence written by the main leg."""
+    def run(pid, tier, seed):
+        import time
+        from . import seglog
+        t0 = time.time()
+        viol, cov = seglog.run_leg(pid, tier, seed)
+        rc = main(pid, tier, seed, extra_cov=cov, t0=t0)
+        return 1 if (viol or rc) else 0
+    return run
+
+
+CHECKS["C03"] = _with_seglog(sync.run_plan)
+CHECKS["C17"] = _with_seglog(sync.run_plan)
+CHECKS["C09"] = _with_seglog(apichecks.run_plan)
 CHECKS["C15"] = conc.run_c15
 CHECKS["C20"] = conc.run_c20
